@@ -150,12 +150,18 @@ pub mod tstd {
     #[verifier::external_type_specification]
     #[verifier::external_body]
     pub struct ExParseFloatError(core::num::ParseFloatError);
-    /// tokens still to come (a measure for termination; the tokens themselves are uninterpreted)
-    pub uninterp spec fn sw_remaining(it: core::str::SplitWhitespace<'_>) -> nat;
+    /// the whitespace-separated words of a string, in order (uninterpreted), and the words an iterator has still to yield
+    pub uninterp spec fn str_words<'a>(s: &'a str) -> Seq<&'a str>;
+    pub uninterp spec fn sw_tokens<'a>(it: core::str::SplitWhitespace<'a>) -> Seq<&'a str>;
+    /// tokens still to come (the measure for termination)
+    pub open spec fn sw_remaining(it: core::str::SplitWhitespace<'_>) -> nat { sw_tokens(it).len() }
     pub assume_specification<'a>[str::split_whitespace](s: &'a str) -> (r: core::str::SplitWhitespace<'a>)
-        ensures sw_remaining(r) <= usize::MAX;      // a string in memory has fewer than 2^64 tokens
+        ensures sw_tokens(r) == str_words(s), sw_tokens(r).len() <= usize::MAX;      // a string in memory has fewer than 2^64 tokens
     pub assume_specification<'a>[<core::str::SplitWhitespace<'a> as Iterator>::next](it: &mut core::str::SplitWhitespace<'a>) -> (r: Option<&'a str>)
-        ensures r.is_some() ==> sw_remaining(*final(it)) < sw_remaining(*old(it)), sw_remaining(*final(it)) <= sw_remaining(*old(it));
+        ensures match r {
+            Some(t) => sw_tokens(*old(it)).len() > 0 && t == sw_tokens(*old(it))[0] && sw_tokens(*final(it)) == sw_tokens(*old(it)).skip(1),
+            None => sw_tokens(*old(it)).len() == 0 && sw_tokens(*final(it)).len() == 0,
+        };
     /// std slice::sort: "sorts the slice ... stable"; the result is an uninterpreted function of the input with, for i32, the facts below
     pub uninterp spec fn slice_sorted<T>(s: Seq<T>) -> Seq<T>;
     pub assume_specification<T: Ord>[<[T]>::sort](s: &mut [T])
